@@ -63,7 +63,7 @@ PLANS = {
     },
     "C15": {
         "quick": [("c15q", inst(LeafFam="<-C15LeavesQ", MaxLeaves=2, MaxCalls=2, OnlyMentioned=False, Method='{"r0", "r1", "d0", "d1"}',
-                                ScriptFam="<-cScriptsQ", StrictFam="<-cStrictOnly"), {"clones": 1}, None)],
+                                ScriptFam="<-cScriptsQ"), {"clones": 1}, None)],
         "thorough": [("c15t", inst(LeafFam="<-C15Leaves", MaxLeaves=3, MaxCalls=4, OnlyMentioned=False, Method='{"r0", "r1", "d0", "d1"}',
                                    ScriptFam="<-cScriptsReq2", UpFam="<-cUpBoth"), {"clones": 2}, {"num": 500000, "depth": 8})],
     },
